@@ -693,7 +693,11 @@ impl BuildJob<'_> {
             // target that called redo-always.
             match sf.deps(ptx) {
                 Ok(deps) => {
-                    if deps.iter().any(|(_, d)| d.is_failed(ptx.state().env())) {
+                    // (only what it asked to have built: a path it merely watches
+                    // with redo-ifcreate may have failed for somebody else.)
+                    if deps.iter().any(|(m, d)| {
+                        *m == state::DepMode::Modified && d.is_failed(ptx.state().env())
+                    }) {
                         if let Err(e) =
                             sf.add_dep(ptx, state::DepMode::Modified, state::always_filename())
                         {
